@@ -28,6 +28,7 @@ func init() {
 				"R11.1 unit agreement: units of encoder length bytes == unit of Kind()'s length-1 test == unit of the decoder's sliced container",
 				"R11.2 kind tables: IndexKind constants == decoder cases; kinds returned by Kind() ⊆ decoder cases; first byte of every encoded index is byte(kind) of its branch (or the constant of the default branch)",
 				"R11.3 layout: sizes 1 / 1+len(ts) / 1+2*len(ts); full layout offsets (length at 2i, type at 2i+1, after the kind byte) equal the decoder's read offsets (i, i+1 from i=1 step 2); alternating parity map equal on both sides",
+				"R11.5 decoded values: every token value the decoder stores is cut from the password string itself (strings.Join of a slice of strings.Split(pw, \"\"), an element of that split, or pw[a:b]); no conversion through []rune/[]byte/rune, which re-encodes bytes that are not valid UTF-8",
 				"R11.4 lossy conversion guarded: every int->uint8 conversion of a length is dominated by length <= 255; every error return of the encoder is guarded by length > 255 exactly and returns a nil index",
 			},
 			Trusted:    append([]string{"strings.Split(s, \"\") splits after each UTF-8 sequence and strings.Join(parts, \"\") is its inverse; utf8.RuneCountInString counts the same units"}, commonTrusted...),
@@ -315,6 +316,9 @@ func runC11(p *core.Program, r *core.Report) {
 		}
 	}
 	r.Floor("R11.2", "encoding returns", nRet, 3)
+
+	// ---------- R11.5 token values are pieces of the password string itself
+	checkDecodedValuesArePieces(p, r, dec)
 
 	// ---------- R11.3 full layout offsets
 	checkFullLayout(p, r, enc, dec)
@@ -768,4 +772,101 @@ func checkAlternatingParity(p *core.Program, r *core.Report, dec *ssa.Function) 
 	ok := encMap[0] == decMap[0] && encMap[1] == decMap[1]
 	r.Check(ok, "R11.3", core.FuncName(dec), "alternating layout: same parity->token-type map on both sides", p.Pos(dec.Pos()),
 		fmt.Sprintf("isAlternatingTokens requires %v, decoder assigns %v (TokenType values)", encMap, decMap))
+}
+
+// checkDecodedValuesArePieces: R11.5.
+func checkDecodedValuesArePieces(p *core.Program, r *core.Report, dec *ssa.Function) {
+	name := core.FuncName(dec)
+	valField := tokenValueField(p)
+	n := 0
+	core.Instrs(dec, func(in ssa.Instruction) {
+		st, ok := in.(*ssa.Store)
+		if !ok {
+			return
+		}
+		fa, ok := st.Addr.(*ssa.FieldAddr)
+		if !ok || core.FieldName(fa) != valField || core.NamedOf(fa.X.Type()) != core.ModulePath+".Token" {
+			return
+		}
+		n++
+		seen := map[ssa.Value]bool{}
+		var lossy func(v ssa.Value, d int) string
+		lossy = func(v ssa.Value, d int) string {
+			if v == nil || d > 10 || seen[v] {
+				return ""
+			}
+			seen[v] = true
+			switch x := v.(type) {
+			case *ssa.Convert:
+				if b, isB := x.Type().Underlying().(*types.Basic); isB && b.Info()&types.IsString != 0 {
+					switch x.X.Type().Underlying().(type) {
+					case *types.Slice:
+						return "string(" + x.X.Type().String() + ") conversion at " + p.InstrPos(x)
+					case *types.Basic:
+						if xb := x.X.Type().Underlying().(*types.Basic); xb.Info()&types.IsInteger != 0 {
+							return "string(rune) conversion at " + p.InstrPos(x)
+						}
+					}
+				}
+				return lossy(x.X, d+1)
+			case *ssa.Phi:
+				for _, e := range x.Edges {
+					if w := lossy(e, d+1); w != "" {
+						return w
+					}
+				}
+			case *ssa.Extract:
+				return lossy(x.Tuple, d+1)
+			case *ssa.UnOp:
+				return lossy(x.X, d+1)
+			case *ssa.IndexAddr:
+				return lossy(x.X, d+1)
+			case *ssa.Slice:
+				return lossy(x.X, d+1)
+			case *ssa.ChangeType:
+				return lossy(x.X, d+1)
+			case *ssa.Call:
+				switch core.CallName(x) {
+				case "strings.Join", "strings.Split":
+					return lossy(x.Call.Args[0], d+1)
+				case "(*strings.Builder).String":
+					// whatever was written into the builder
+					for _, ref := range core.Referrers(x.Call.Args[0]) {
+						if wc, isC := ref.(*ssa.Call); isC && len(wc.Call.Args) == 2 {
+							switch core.CallName(wc) {
+							case "(*strings.Builder).WriteRune":
+								return "strings.Builder.WriteRune at " + p.InstrPos(wc)
+							case "(*strings.Builder).WriteString":
+								if w := lossy(wc.Call.Args[1], d+1); w != "" {
+									return w
+								}
+							}
+						}
+					}
+				}
+				if f := core.StaticCallee(x); f != nil && p.InLib(f) && f.Blocks != nil {
+					for _, ret := range core.Returns(f) {
+						for _, rv := range ret.Results {
+							if w := lossy(rv, d+1); w != "" {
+								return w
+							}
+						}
+					}
+				}
+			case *ssa.Alloc:
+				for _, ref := range core.Referrers(x) {
+					if s2, isSt := ref.(*ssa.Store); isSt && s2.Addr == ssa.Value(x) {
+						if w := lossy(s2.Val, d+1); w != "" {
+							return w
+						}
+					}
+				}
+			}
+			return ""
+		}
+		why := lossy(st.Val, 0)
+		r.Check(why == "", "R11.5", name, "token value is cut from the password string itself (no re-encoding through runes or bytes)", p.InstrPos(st),
+			why+": bytes that are not valid UTF-8 come back as U+FFFD, so the reconstructed token values differ from the original ones")
+	})
+	r.Floor("R11.5", "token value stores in the decoder", n, 3)
 }
